@@ -15,7 +15,7 @@ import ms
 from common import qlit
 
 MANIFEST = dict(
-    text='Theorems (props/C12.v, 14, all closed under the global context) about a hand-written Gallina model of HaighDiagram.transform / '
+    text='Theorems (props/C12.v, 18, all closed under the global context) about a hand-written Gallina model of HaighDiagram.transform / '
          '_SegmentTransformer (segment ordering by distance from the target in fake-mean-stress space with stable ties, closed test interval, '
          'the +-inf flip, transformed_amplitude incl. R_goal = -inf and 1.0 -> -inf), the FKM-Goodman and five-segment diagram constructors and '
          '_rebin_results, over Q with an extended rational type for R. segment_walk_invariant: a * H(R) is invariant under every step of the '
@@ -27,7 +27,11 @@ MANIFEST = dict(
          'every cycle and target EXCEPT the class found by this check (code as it is: target R = -inf and a cycle at R > 1 is not transformed; '
          'five_segment_neg_inf_refuted gives the witness); the same theorems hold without exception for the repaired code (flag fx = true = '
          'fixes/C12-five-segment-target-neg-inf.patch). matrix_conserves_cycles: re-binning puts every transformed range into exactly one result '
-         'interval. The model is tied to the code by a vm_compute correspondence check of amplitude and mean through the plain functions, the '
+         'interval. Listing order of the segments (diagrams built by HaighDiagram.from_dict): segment_walk_invariant_any_listing (the invariant holds for every '
+         'listing, with and without the repair), natural_listing_refuted (code as it is: the FKM-Goodman diagram listed in the natural order of R leaves a cycle '
+         'at R = 2 untransformed for the goal R = 1/2 and is path dependent; open finding segment-listing-order), listing_repair_keeps_fkm_goodman / '
+         '_five_segment (fixes/C12-segment-listing-order.patch, model flag fo = true, does not change the constructors\' diagrams, so every theorem above carries over). '
+         'The model is tied to the code by a vm_compute correspondence check of amplitude and mean through the plain functions, the '
          'DataFrame accessor (several index layouts, one diagram per element) and the histogram accessor, and of the re-binned counts.',
     note=common.TB_NOTE + 'all C12 theorems are closed under the global context (no axioms). Model is hand-written: the correspondence harness '
          '(generators, Coq literals, exact Fraction oracle) is trusted; float rounding is outside the theorems (comparison tolerance 1e-9 '
@@ -35,7 +39,11 @@ MANIFEST = dict(
          'the re-binning: the interval edges are taken from the implementation and checked against the hypotheses of matrix_conserves_cycles) are '
          'covered by the correspondence only; R_goal = 1 and R_goal = +inf are rejected by the model (the code raises / returns garbage there); '
          'five-segment slopes outside [0, 1) (the test-suite uses M3 = 1, M4 = -2) are covered by correspondence and the exact oracle, not by the theorems; '
-         'monotonicity/continuity are proved for FKM-Goodman only (five-segment: oracle relations on the implementation).',
+         'monotonicity/continuity are proved for FKM-Goodman only (five-segment: oracle relations on the implementation); that the walk ARRIVES at the goal is '
+         'proved for the constructors\' listings only -- other listings accepted by the gap check (rotations of the natural order, built by from_dict) are '
+         'covered by correspondence and the oracle relations; bin-by-bin agreement of the matrix interface with the plain function for every row / level order of '
+         'the matrix and cycles with an IEEE negative zero as upper value are relations on the implementation only (the Q model has no signed zero; the model\'s '
+         're-binning is fed with the pairing the code uses).',
     technique='Coq proof (invariant + case analysis, lra/nra/field over Q) over hand-written Gallina model + vm_compute correspondence',
     design='6/C12')
 
@@ -588,7 +596,9 @@ def run(res):
                        'slopes in [0,1), 10% wild slopes in [-2,2] with divisors bounded away from 0); targets: -inf, borders 0/R12/R23, segment mids '
                        '(distance 0), dyadic R < 1 and R > 1; cycles: random dyadic (amplitude, mean), exactly on borders / on the target / 2^-k beside '
                        'them, compressive R > 1; interfaces: plain function, DataFrame accessor (range/mean or from/to; RangeIndex, named, MultiIndex, '
-                       'string index; one diagram per element), histogram accessor (range/mean and from/to matrices, optional node level); '
+                       'string index; one diagram per element), histogram accessor (range/mean and from/to matrices, optional node level; 55% product order, else rows '
+                       'shuffled / reversed / two rows swapped and / or index levels reordered); 40% of the non-wild diagrams additionally through HaighDiagram.from_dict '
+                       'in a random rotation of the natural segment order; collective cycles with -0.0 as upper or lower value; '
                        'non-trivial = distinct (diagram, target, cycle) triples whose model/implementation pair was compared')
     common.standard_proof_stage(res, 'C12')
 
